@@ -3,6 +3,8 @@
 //	schedmc <ID>                          run the check (VERIF_TIER=quick|thorough); one worker process per closed system
 //	schedmc <ID> --replay <file>          re-execute the one schedule recorded in a violation file, without the enumerator
 //	schedmc --worker <ID> <index> <out>   (internal) explore one closed system
+//	schedmc C19 --solo <cfg json> <thread> <bound>  (internal) solo reference of one Rollout, in its own process
+//	schedmc C19 --probe <cfg> <choices>   (internal) one execution of a schedule prefix in a fresh process (digest)
 //	schedmc C19 --race-worker             auxiliary: free-running worker bodies, for a `go build -race` binary
 //	schedmc C19 --race-stage <race-bin>   auxiliary: run <race-bin> C19 --race-worker, report C19/race (sampled)
 package main
@@ -47,6 +49,25 @@ func main() {
 	}
 	if len(os.Args) >= 3 && os.Args[1] == "C19" && os.Args[2] == "--race-worker" {
 		c19.RaceWorker()
+		return
+	}
+	if len(os.Args) >= 6 && os.Args[1] == "C19" && os.Args[2] == "--solo" {
+		b, err := strconv.Atoi(os.Args[5])
+		if err != nil {
+			fmt.Fprintln(os.Stderr, "HARNESS-ERROR bad solo arguments")
+			os.Exit(2)
+		}
+		c19.Solo(os.Args[3], os.Args[4], b)
+		return
+	}
+	if len(os.Args) >= 5 && os.Args[1] == "C19" && os.Args[2] == "--probe" {
+		idx, err := strconv.Atoi(os.Args[3])
+		var choices []int
+		if err != nil || json.Unmarshal([]byte(os.Args[4]), &choices) != nil {
+			fmt.Fprintln(os.Stderr, "HARNESS-ERROR bad probe arguments")
+			os.Exit(2)
+		}
+		c19.Probe(idx, choices)
 		return
 	}
 	if len(os.Args) >= 4 && os.Args[1] == "C19" && os.Args[2] == "--race-stage" {
